@@ -108,6 +108,17 @@ class Hole2D(_Box):
     # runs do not use this model
 
 
+class Truncated2D(_Box):
+    """Gaussian likelihood that is exactly zero (log-likelihood -inf) outside a disc: the importance
+    sampler keeps such samples (weight zero); used for the importance sampler only."""
+
+    ndim = 2
+
+    def log_likelihood(self, x):
+        r2 = self._r2(x)
+        return np.where(r2 <= 9.0, -0.5 * r2, -np.inf)
+
+
 class Dyadic2D(_Box):
     """Likelihood built from exactly rounded operations on dyadic rationals of
     the *rounded* inputs: vectorised and pointwise evaluation agree bit for
@@ -176,6 +187,7 @@ MODELS = {
     "plateau2": Plateau2D,
     "hole2": Hole2D,
     "dyadic2": Dyadic2D,
+    "trunc2": Truncated2D,
     "nonuni2": NonUniform2D,
 }
 
